@@ -138,6 +138,7 @@ def run_obligation(name, tier="quick", seed=0, do_diff=True):
             return rec
         called = []
         ip.trace_calls = called
+        ip.contracts_used = set()
 
         frame_paths = {"ok": 0, "bad": 0}
 
@@ -179,6 +180,7 @@ def run_obligation(name, tier="quick", seed=0, do_diff=True):
         rec["paths"] = E.paths
         rec["vcs"] = len(vcs)
         rec["called"] = sorted(set(called))
+        rec["contracts_used"] = sorted(ip.contracts_used)
         if not vcs:
             rec["status"] = "fault"
             rec["notes"].append("no verification condition generated (vacuous obligation)")
